@@ -8,7 +8,7 @@ META = {
     "technique": "Coq proofs (loop invariants, induction) about a Gallina transcription of math/binary_linalg.py + vm_compute correspondence (exhaustive <=3x4 and random larger) + brute-force GF(2) reference oracle",
     "design_ref": "DESIGN.md §3 C50",
     "text": "7 kernel-checked theorems (Props/C50.v, all closed under the global context) about a Gallina transcription of the actual loops of math/binary_linalg.py on list (list bool), for ALL rectangular matrices of any size: rref_total (pivot-search/row loops never exhaust the model's fuel), rref_row_equiv (output has the same shape and the same GF(2) row space as the input; proved via the loop invariant 'rows >= irow are zero left of icol', which is what makes the icol:-slice swap and the outer-product xor whole-row operations), rref_is_rref_partial (every output row owns a unit pivot column with zeros to its left, or is zero), solve_sound (square A: a returned x satisfies A.x=b), solve_unique (a returned x is the only solution, i.e. singular systems are never accepted), rank_total, rank_is_basis_size (the returned rank is the size of a linearly independent family with the same row space as the input). Tie: the model is run inside Coq (vm_compute) on the same inputs as pennylane.math and all outputs compared: every binary matrix up to 3x4 for rref/rank/select_basis, with every right-hand side for solve and every vector for is_independent (n<=3), plus seeded random matrices (up to 9x9 quick, 16x16 thorough), degenerate shapes and malformed lengths; in addition a brute-force reference oracle (span enumeration, textbook Gauss-Jordan on bitmasks, exhaustive solution search) is evaluated directly on every implementation output, including input-not-modified and inplace=True semantics.",
-    "note": "Trusted: Coq kernel; the hand transcription coq/Disc/GF2Model.v (numpy slicing, np.outer, ^=, nonzero/where indexing rendered as firstn/skipn/map2/first_true/last_true) is tied to /repo by the correspondence run only. NOT proved (covered by correspondence + brute-force oracle only): strict monotonicity of pivot columns / zero-rows-last of the RREF; the converse of solve_unique (every regular A is accepted); uniqueness of basis size (dimension theorem), hence 'rank = dim' is stated as 'rank = size of some basis'; rank invariance under row operations; binary_is_independent and binary_select_basis have a model and correspondence but no theorem (they are thin wrappers over rank; is_independent is only meaningful under its documented full-rank precondition); int_to_binary has model+correspondence only; binary_decimals (floats) is outside the model. Callers in qchem/tapering.py, transforms/intermediate_reps/rowcol.py, sum_of_slaters.py, default_clifford.py are not modelled; they call the functions verified here. Equivalent mutants (e.g. choosing a different pivot row/bit) do not change the outputs and are, correctly, not reported.",
+    "note": "Trusted: Coq kernel; the hand transcription coq/Disc/GF2Model.v (numpy slicing, np.outer, ^=, nonzero/where indexing rendered as firstn/skipn/map2/first_true/last_true) is tied to /repo by the correspondence run only. NOT proved (covered by correspondence + brute-force oracle only): strict monotonicity of pivot columns / zero-rows-last of the RREF; the converse of solve_unique (every regular A is accepted); uniqueness of basis size (dimension theorem), hence 'rank = dim' is stated as 'rank = size of some basis'; rank invariance under row operations; binary_is_independent and binary_select_basis have a model and correspondence but no theorem (they are thin wrappers over rank; is_independent is only meaningful under its documented full-rank precondition); int_to_binary has model+correspondence only; binary_decimals (floats) is outside the model. Callers in qchem/tapering.py, transforms/intermediate_reps/rowcol.py, sum_of_slaters.py, default_clifford.py are not modelled; they call the functions verified here. The exhaustive solve cases are sent to Coq as one term per matrix (all right-hand sides in product order); a failing group is re-evaluated case by case to name the failing right-hand side. A 3 s per-case watchdog in the driver turns a non-terminating implementation into a reported violation. Equivalent mutants (e.g. choosing a different pivot row/bit) do not change the outputs and are, correctly, not reported.",
     "assumptions": ["matrix entries are 0/1 integers in rectangular numpy arrays (other dtypes / entries >1 / JAX are outside the model)",
                     "binary_solve_linear_system: the A.x=b clause is stated for square A (documented precondition); non-square inputs are compared with the model only",
                     "binary_is_independent: the reference answer (v not in column span) is demanded only when `basis` has full rank min(r,m) (documented precondition); otherwise model comparison only"],
